@@ -87,7 +87,9 @@ def engExp (st : ExpState) (a : List String) : ExpState × String :=
     match parseSetType t, setid.toNat?, parseRecsDesc recs with
     | some ty, some sid, some rs =>
       let d : SetDesc := { ty := ty, setId := sid, recs := rs }
-      match d.build (path == "2") with
+      -- a trailing `r` on the path = the application recycled one set (ResetSet + PrepareSet): by
+      -- C16 `reset_like_new` that is the same set as a new one
+      match d.build (path == "2" || path == "2r") with
       | none =>
         -- template record with a non-empty value through AddRecord: the builder refuses;
         -- a data record with an unencodable value: the send must fail with nothing written
